@@ -4,7 +4,7 @@ from common import *
 
 RULE = ("0-60 symbols with full-width values/sizes, all bindings/types/visibilities, section indices incl. reserved ones, unique names, "
         "added in 4 configurations and read back by index (and at count, count+1, 2^32-1); table bytes compared with the ABI layout; "
-        "lookup by every present name, by absent names and by value, with no hash table, with a SysV table and with a GNU table built "
+        "lookup (a quarter of the tables: after the object has been saved once) by every present name, by absent names and by value, with no hash table, with a SysV table and with a GNU table built "
         "from the ABI definitions by this generator (1..17 buckets), and with deliberately useless but safe tables; hash functions "
         "on all strings up to length 3 over a 6-letter alphabet (thorough; sampled in quick) and random strings incl. bytes >= 0x80. "
         "Non-trivial = at least 4 symbols with a hash table present, or a hash-function case.")
@@ -200,7 +200,7 @@ def nontrivial(case):
     return sum(1 for o in ops if o[0] == "add") >= 4 and any(o[0] == "hash" for o in ops)
 
 
-def table_case(cid, rng, cfg, k, hashkind):
+def table_case(cid, rng, cfg, k, hashkind, saved_first=False):
     cls, enc = cfg
     w = 32 if cls == "32" else 64
     names = set()
@@ -234,6 +234,9 @@ def table_case(cid, rng, cfg, k, hashkind):
     elif hashkind in ("gnu", "gnu_zero_bloom") and k:
         lines += ["secset 4 type %d" % 0x6ffffff6, "secset 4 link 3",
                   "dset 4 " + hx(gnu_table(allnames, nb, cls, enc, bloom_size, shift, hashkind == "gnu_zero_bloom"))]
+    if saved_first:
+        # the writer object is saved (its sections get file offsets) and queried afterwards
+        lines += ["save", "symnum 3", "symget 3 %d" % k]
     for nm in names:
         lines.append("symname 3 " + hx(nm))
     for _ in range(4):
@@ -254,7 +257,7 @@ def generate(rng, tier):
     for i in range(n):
         cfg = CFGS[i % 4]
         k = rng.choice([0, 1, 2, 5, 17, 60]) if rng.random() < 0.4 else rng.randint(0, 60)
-        cases.append(table_case("t%d" % i, rng, cfg, k, kinds[(i // 4) % 4]))
+        cases.append(table_case("t%d" % i, rng, cfg, k, kinds[(i // 4) % 4], saved_first=(i % 16 >= 12)))
     # hash functions
     alpha = b"ab_Z9\xe9"
     strs = [bytes(s) for ln in range(0, 4) for s in itertools.product(alpha, repeat=ln)]
